@@ -388,6 +388,11 @@ func TestC10Pools(t *testing.T) {
 		`{"a": 1, "s": "x", "arr": [1, 2, 3], "o": {"k": "p", "n": 2, "deep": {"z": [true, "w"]}}, "b": true, "f": 1.5, "e": ""}`,
 		`{"a": 0, "s": "", "arr": ["u", "v"], "o": {"k": "", "n": 0, "deep": {"z": [false, "q"]}}, "b": false, "f": 0.25, "e": "e"}`,
 	}
+	// the same documents with insignificant whitespace around and inside them
+	for _, d := range append([]string(nil), docs...) {
+		docs = append(docs, d+"\n", "  "+d, "\t"+d+" \n", strings.ReplaceAll(strings.ReplaceAll(d, ", ", ",\n  "), "{", "{\n  "))
+	}
+	docs = append(docs, `{"a":1,"s":"x","arr":[1,2,3],"o":{"k":"p","n":2,"deep":{"z":[true,"w"]}},"b":true,"f":1.5,"e":""}`)
 	for _, d := range docs {
 		j := func() *lib.Node { return lib.Call("json", lib.Value()) }
 		emit("json[k]", "row", lib.Field(j(), "a"), "k", d)
@@ -500,6 +505,7 @@ func TestC10Sampled(t *testing.T) {
 			k := word.Draw(rt, "jk") + "x"
 			sv := word.Draw(rt, "jv")
 			doc := fmt.Sprintf(`{"%s": {"inner": ["%s", %d]}, "n": %d}`, k, sv, n, n)
+			doc = rapid.SampledFrom([]string{"", "", " ", "\n", "\t "}).Draw(rt, "lead") + doc + rapid.SampledFrom([]string{"", "", " ", "\n", "\r\n"}).Draw(rt, "trail")
 			e := lib.Index(lib.Field(lib.Field(lib.Call("json", lib.Value()), k), "inner"), int64(rapid.IntRange(0, 1).Draw(rt, "ji")))
 			c = &c10Case{E: e, K: "k", V: doc, Fn: "json[k][k][n]", Form: "row"}
 		}
